@@ -36,6 +36,8 @@ SpellingsOf(e) ==
     Lookup(FALSE, <<"zz", "..">> \o P),
     Lookup(TRUE, RootParts \o P),                   \* absolute path of the file itself
     Lookup(FALSE, <<"..", "r0">> \o P),             \* out of the root and back in
+    Lookup(FALSE, P \o <<"">>),                      \* trailing "/"  (normalised away by the join)
+    Lookup(FALSE, P \o <<".">>),                     \* trailing "/."
     Lookup(FALSE, <<Names[e.n]>>) }                 \* base name asked for at the root
 Escapes ==
   { Lookup(FALSE, <<"..", "outside.js">>),
